@@ -493,7 +493,7 @@ def token_mass_guess(tok):
 
 
 ARCHETYPES = ["homo", "random", "block", "alternating", "stepgrowth", "star", "graft", "hyper", "endinit2", "prefix_suffix", "connector",
-              "multibond", "dollar_homo", "listweights", "leftlist", "mixedorder", "multikind", "listhandover", "orderprefix"]
+              "multibond", "dollar_homo", "listweights", "leftlist", "mixedorder", "multikind", "listhandover", "orderprefix", "listterminate"]
 
 
 def rand_molecule(rnd, archetype=None, small=True, families=None, palette=None, units=(1, 8)):
@@ -655,6 +655,33 @@ def rand_molecule(rnd, archetype=None, small=True, families=None, palette=None, 
             return rand_molecule(rnd, "multibond", small, families, palette, units)
         st = StochT(None, [unit, unit2], [e1, e2], None, dist_for([unit, unit2]), lay())
         return MolT([st], None, a)
+    if a == "listterminate":
+        # transition lists with POSITIVE entries at end-group slots: the list itself may terminate the chain (slots: the descriptors of the
+        # repeat units in written order, then those of the end groups)
+        nrep = rnd.choice([1, 2])
+        nend = rnd.choice([1, 2])
+        nslots = 2 * nrep + nend
+        reps = []
+        for u in range(nrep):
+            lst = []
+            for k in range(nslots):
+                if k < 2 * nrep:
+                    lst.append(spell(rnd, rnd.choice([1.0, 3.0, 7.0, 0.5])) if k % 2 == 0 else "0")      # '<' slots of the units
+                else:
+                    lst.append(spell(rnd, rnd.choice([1.0, 2.0, 0.5, 0.0, 3.0])))                          # end-group slots
+            if all(float(x.replace("_", "")) == 0 for x in lst[2 * nrep:]):
+                lst[-1] = "2"
+            for _ in range(40):
+                U = _unit(rnd, D("<"), DescT(">", did, ("l", lst)), palette=pal, lead_p=1.0)
+                render_token(U)
+                if [d.sym for d, _, _ in U.descs] == ["<", ">"]:
+                    break
+            else:
+                return rand_molecule(rnd, "random", small, families, palette, units)
+            reps.append(U)
+        ends = [_end(rnd, D("<"), palette=pal) for _ in range(nend)]
+        st = StochT(DescT(">", did), reps, ends, None, dist_for(reps), lay())
+        return MolT([_plain(rnd, palette=pal), st], None, a)
     if a == "orderprefix":
         # the prefix's open descriptor prescribes a double / triple bond while the left terminal is written without bond symbol:
         # the first bond of the object must be made with the PREFIX descriptor's order, to a unit descriptor of that order
